@@ -101,7 +101,7 @@ fn exec_ops(routine: &str, root: &Path, ops: &[&str], state: &mut DriverState) -
             ("lru", "bump") => state.lru.as_mut().unwrap().bump_generation(),
             ("lru", "ckpt") => block_on(state.lru.as_mut().unwrap().checkpoint_to_disk()).map_err(|e| e.to_string())?,
             ("lru", "shutdown") => block_on(state.lru.as_mut().unwrap().shutdown()).map_err(|e| e.to_string())?,
-            ("disk" | "diskbg", "put") => {
+            ("disk" | "diskbg" | "diskbgfast", "put") => {
                 let c = state.disk.as_ref().unwrap();
                 block_on(c.put(SKey(p[1].to_string()), dval(p[2]))).map_err(|e| e.to_string())?;
             }
@@ -117,7 +117,7 @@ fn exec_ops(routine: &str, root: &Path, ops: &[&str], state: &mut DriverState) -
                 let key = crate::props::c04::ekey_n(&data);
                 block_on(state.dynamic.as_ref().unwrap().remove(&key)).map_err(|e| e.to_string())?;
             }
-            ("disk" | "diskbg", "rm") => {
+            ("disk" | "diskbg" | "diskbgfast", "rm") => {
                 let c = state.disk.as_ref().unwrap();
                 block_on(c.remove(&SKey(p[1].to_string()))).map_err(|e| e.to_string())?;
             }
@@ -170,6 +170,14 @@ pub fn driver_main(args: &[String]) -> i32 {
         "diskbg" => {
             let cfg = DiskCacheConfig::new(root.to_path_buf()).with_default_ttl(Duration::from_secs(3600)).with_subdirectories(false, 1);
             st.disk = Some(block_on(async { DiskCache::new_with_background_tasks(cfg) }).expect("disk cache with background tasks"));
+        }
+        // the same constructor with a configuration value nothing in the repository sets: a
+        // periodic sync every second (the smallest interval the configuration accepts in whole
+        // seconds). A periodic sync is no substitute for the sync before the rename.
+        "diskbgfast" => {
+            let mut cfg = DiskCacheConfig::new(root.to_path_buf()).with_default_ttl(Duration::from_secs(3600)).with_subdirectories(false, 1);
+            cfg.sync_interval = Duration::from_secs(1);
+            st.disk = Some(block_on(async { DiskCache::new_with_background_tasks(cfg) }).expect("disk cache with background tasks (sync every second)"));
         }
         _ => return 2,
     }
@@ -257,7 +265,7 @@ pub fn observe(routine: &str, dir: &Path) -> Result<BTreeMap<String, String>, St
                     out.insert(format!("object-{v}"), format!("query={q} read={r}"));
                 }
             }
-            "disk" | "diskbg" => {
+            "disk" | "diskbg" | "diskbgfast" => {
                 let c: DiskCache<SKey> = DiskCache::new(DiskCacheConfig::new(dir.to_path_buf()).with_default_ttl(Duration::from_secs(3600)).with_subdirectories(false, 1))
                     .map_err(|e| format!("DiskCache::new: {e}"))?;
                 for k in DKEYS {
@@ -339,7 +347,7 @@ pub fn followup(routine: &str, dir: &Path) -> Result<(), String> {
                     return Err("a key touched and checkpointed after the recovery is not in the next instance's list".into());
                 }
             }
-            "disk" | "diskbg" => {
+            "disk" | "diskbg" | "diskbgfast" => {
                 let cfg = || DiskCacheConfig::new(dir.to_path_buf()).with_default_ttl(Duration::from_secs(3600)).with_subdirectories(false, 1);
                 let c: DiskCache<SKey> = DiskCache::new(cfg()).map_err(|e| format!("DiskCache::new: {e}"))?;
                 for k in DKEYS {
@@ -450,7 +458,11 @@ fn scenarios(tier: Tier) -> Vec<Scenario> {
     // a value of the "large file" size class, and the instance built with its background tasks
     v.push(mk("diskbg", "put:k:a", "put:k:L"));
     v.push(mk("disk", "put:k:a", "put:k:L"));
+    // the tasks' first ticks fire during the pre-history put, outside the judged window
+    v.push(mk("diskbgfast", "put:k:a", "put:k:b"));
     if tier == Tier::Thorough {
+        v.push(mk("diskbgfast", "put:k:a", "put:x.y:a"));
+        v.push(mk("diskbgfast", "put:k:a", "put:k:L"));
         v.push(mk("diskbg", "", "put:k:L"));
         v.push(mk("diskbg", "put:k:L", "put:k:b"));
         v.push(mk("diskbg", "put:k:a", "put:k:b"));
@@ -656,6 +668,7 @@ pub fn replay(w: &serde_json::Value) -> i32 {
         "lru" => "lru",
         "dyn" => "dyn",
         "diskbg" => "diskbg",
+        "diskbgfast" => "diskbgfast",
         _ => "disk",
     };
     let rep = Report::new("C06", Tier::Quick, 0, Level::FaultEnumeration);
